@@ -113,12 +113,61 @@ func pmapScenario(n, pool int, random bool, bound int) *vsched.Scenario {
 	}
 }
 
+// sharedOptionScenario: one *PMapOption is reused for several calls (an empty list first): each call must
+// keep the bound the option states.
+func sharedOptionScenario(random bool, bound int) *vsched.Scenario {
+	fam := "pmap-shared-option"
+	var maxGauge int
+	var results [][]int
+	return &vsched.Scenario{
+		Name:  fmt.Sprintf("pmap/shared-option/random=%v", random),
+		Bound: bound,
+		Body: func() {
+			maxGauge, results = 0, nil
+			gauge := 0
+			f := func(v int) int {
+				// (entry / exit are markers in the global log: the number of applications in flight is then a
+				// function of the happens-before state, which the state cache relies on)
+				vsched.Event("in", v)
+				gauge++
+				if gauge > maxGauge {
+					maxGauge = gauge
+				}
+				vsched.Yield()
+				gauge--
+				vsched.Event("out", v)
+				return image(v)
+			}
+			opt := &fpgo.PMapOption{FixedPool: 1, RandomOrder: random}
+			results = append(results, fpgo.PMap(f, opt))       // empty list
+			results = append(results, fpgo.PMap(f, opt, 1, 2)) // must still run on one goroutine
+			vsched.Event("option-after", opt.FixedPool, opt.RandomOrder)
+		},
+		Check: func(r *vsched.Result) []vsched.Failure {
+			fs := e1.Basic("C16", fam, r, nil)
+			if len(fs) > 0 {
+				return fs
+			}
+			if maxGauge > 1 {
+				fs = append(fs, e1.Fail("C16|"+fam+"|concurrency", "with one option {FixedPool: 1} used for PMap(empty) and then PMap([1 2]), f ran on %d goroutines at once", maxGauge))
+			}
+			got := append([]int{}, results[1]...)
+			sort.Ints(got)
+			if len(results[0]) != 0 || fmt.Sprint(got) != fmt.Sprint([]int{image(1), image(2)}) {
+				fs = append(fs, e1.Fail("C16|"+fam+"|result", "results %v", results))
+			}
+			return fs
+		},
+	}
+}
+
 func scenarios(tier string) []*vsched.Scenario {
 	var out []*vsched.Scenario
 	maxLen, b := 3, 2
 	if tier == "thorough" {
 		maxLen, b = 4, 3
 	}
+	out = append(out, sharedOptionScenario(false, 2), sharedOptionScenario(true, 2))
 	for n := 0; n <= maxLen; n++ {
 		pools := []int{noOption, -1, 0, 1, 2, n, n + 1}
 		seen := map[int]bool{}
